@@ -8,7 +8,7 @@ use crate::jws::encode_kid;
 use crate::logs::HasLogger;
 use crate::storage;
 use crate::{AccountSync, EndpointSync};
-use acme_common::crypto::Csr;
+use acme_common::crypto::{Csr, X509Certificate};
 use acme_common::error::Error;
 use serde_json::json;
 use std::fmt;
@@ -285,6 +285,12 @@ pub async fn request_certificate(
 		.await
 		.map_err(HttpError::in_err)?;
 	drop(data_builder);
+	// Nothing is stored unless the body is a certificate for the key of this order.
+	let leaf = X509Certificate::from_pem(crt.as_bytes())
+		.map_err(|e| e.prefix("invalid certificate received"))?;
+	if !leaf.inner_cert.public_key()?.public_eq(&key_pair.inner_key) {
+		return Err("the certificate received does not match the private key".into());
+	}
 	if is_new_key_pair {
 		certificate::store_key_pair(cert, &key_pair).await?;
 	}
